@@ -54,6 +54,8 @@ func c16(tier string) []*explore.Scenario {
 		}
 	}
 	out = append(out, c16DialBacklog(3, bound+1), c16DialBacklog(5, bound))
+	// the statement's limit: 12 envelopes outstanding for one destination (dialled on demand, dial pending)
+	out = append(out, c16DialBacklog(12, 1), c16DialBacklog(8, 1), c16DialBacklog(9, 0))
 	for _, pause := range []time.Duration{29 * time.Second, 31 * time.Second, 10 * time.Minute} {
 		out = append(out, c16SlowReceiver(pause, 0))
 	}
